@@ -98,6 +98,45 @@ theorem c13_boot_export (v : ℝ) (x : List ℝ) (table : List (List Nat)) (b : 
     Option.map_some, Option.getD_some, ofNatS_eq, sum_eq, ofNat_eq_lit, lit_eq, Nat.cast_zero]
 
 
+/-- **C13 (bootstrap export, as requested).**  What `export_bootstrap(samples, random_numbers=table)` returns when it
+    accepts the table is, for every row, the MEAN over the configurations that row selects (sum over the row divided by
+    the number of entries of the row), one entry per requested sample after the central value ... -/
+theorem c13_boot_checked_mean (samples : Nat) (v : ℝ) (x : List ℝ) (table : List (List Nat)) (out : List ℝ)
+    (h : exportBootChecked samples v x table = some out) (b : Nat) (hb : b < samples) :
+    out.length = samples + 1 ∧ out.getD 0 0 = v ∧
+    out.getD (b + 1) 0 = ((table.getD b []).map (fun k => x.getD k 0)).sum / ((table.getD b []).length : ℝ) := by
+  unfold exportBootChecked at h
+  split at h
+  · rename_i hc
+    simp only [Bool.and_eq_true, beq_iff_eq, List.all_eq_true] at hc
+    obtain ⟨hlen, hrows⟩ := hc
+    cases h
+    have hb' : b < table.length := by omega
+    have hrow : (table.getD b []).length = x.length := by
+      have hmem : table.getD b [] ∈ table := by
+        rw [List.getD_eq_getElem?_getD, List.getElem?_eq_getElem hb']
+        exact List.getElem_mem hb'
+      exact hrows _ hmem
+    refine ⟨by simp [exportBoot, hlen], (c13_boot_export v x table b hb').1, ?_⟩
+    rw [(c13_boot_export v x table b hb').2, hrow]
+  · cases h
+
+/-- ... and a table of any other shape is refused -/
+theorem c13_boot_refuses_other_shape (samples : Nat) (v : ℝ) (x : List ℝ) (table : List (List Nat))
+    (h : table.length ≠ samples ∨ ∃ row ∈ table, row.length ≠ x.length) :
+    exportBootChecked samples v x table = none := by
+  unfold exportBootChecked
+  split
+  · rename_i hc
+    simp only [Bool.and_eq_true, beq_iff_eq, List.all_eq_true] at hc
+    rcases h with h | ⟨row, hr, hne⟩
+    · exact absurd hc.1 h
+    · exact absurd (hc.2 row hr) hne
+  · rfl
+
+/-- non-vacuity: a 2 x 3 table for 2 samples of 3 configurations is accepted -/
+example : (exportBootChecked 2 (2 : Rat) [1, 2, 3] [[0, 0, 1], [2, 1, 1]]).isSome = true := by decide +kernel
+
 /-- C13 (chain consistency): with the same resampling table the export is linear, so samples of a
     linear combination are the linear combination of the samples -/
 theorem c13_boot_linear (v w a : ℝ) (x y : List ℝ) (hl : x.length = y.length) (table : List (List Nat)) :
